@@ -99,7 +99,7 @@ func sumFunc(arg query) func(query, iterator) interface{} {
 		switch typ := functionArgs(arg).Evaluate(t).(type) {
 		case query:
 			for node := typ.Select(t); node != nil; node = typ.Select(t) {
-				if v, err := strconv.ParseFloat(node.Value(), 64); err == nil {
+				if v := stringToNumber(node.Value()); !math.IsNaN(v) {
 					sum += v
 				}
 			}
@@ -116,6 +116,30 @@ func sumFunc(arg query) func(query, iterator) interface{} {
 	}
 }
 
+// stringToNumber converts a string to a number as the XPath number() function
+// does: optional surrounding white space, an optional minus sign and a decimal
+// number. Anything else (an exponent, a plus sign, "Inf", hexadecimal) is NaN.
+func stringToNumber(s string) float64 {
+	s = strings.Trim(s, " \t\r\n")
+	digits, dot := false, false
+	for i := 0; i < len(s); i++ {
+		switch c := s[i]; {
+		case c >= '0' && c <= '9':
+			digits = true
+		case c == '.' && !dot:
+			dot = true
+		case c == '-' && i == 0:
+		default:
+			return math.NaN()
+		}
+	}
+	if !digits {
+		return math.NaN()
+	}
+	v, _ := strconv.ParseFloat(s, 64)
+	return v
+}
+
 func asNumber(t iterator, o interface{}) float64 {
 	switch typ := o.(type) {
 	case query:
@@ -123,16 +147,11 @@ func asNumber(t iterator, o interface{}) float64 {
 		if node == nil {
 			return math.NaN()
 		}
-		if v, err := strconv.ParseFloat(node.Value(), 64); err == nil {
-			return v
-		}
+		return stringToNumber(node.Value())
 	case float64:
 		return typ
 	case string:
-		v, err := strconv.ParseFloat(typ, 64)
-		if err == nil {
-			return v
-		}
+		return stringToNumber(typ)
 	}
 	return math.NaN()
 }
